@@ -342,5 +342,9 @@ func TestC03(t *testing.T) {
 		parallelCases(vlib.Scale(1500, 30000), 8, func(i int) { c03Case(ev, driver, i) })
 	}
 	<-binDone
+	for _, driver := range vlib.Drivers() {
+		driver := driver
+		parallelCases(vlib.Scale(12, 300), 4, func(i int) { contractEconomy(ev, "C03", driver, i) })
+	}
 	finish(t, ev)
 }
